@@ -65,6 +65,24 @@ func genC03(seed int64, tier string) *Scenario {
 		}
 	}
 	op.Ops = append(op.Ops, cmd)
+	if from := base - interval - 150*time.Millisecond; rng.Intn(4) == 0 && from > 50*time.Millisecond {
+		// the targets about to be drained have failed their latest probe when the
+		// command comes (they still serve what they have in flight)
+		for j := range sc.Targets {
+			if a := sc.Targets[j].Addr; (strings.HasPrefix(a, "a") || strings.HasPrefix(a, "r")) && rng.Intn(3) != 0 {
+				sc.Targets[j].AbsBase = true
+				sc.Targets[j].Phases = []Phase{{Until: from, Kind: "ok"}, {Until: pick(rng, 0, base+drainT+2*interval), Kind: "status", Status: 500}, {Kind: "ok"}}
+			}
+		}
+	}
+	if kind == "deploy" && rng.Intn(4) == 0 {
+		// the new targets fail their probes soon after the deploy went through
+		for j := range sc.Targets {
+			if strings.HasPrefix(sc.Targets[j].Addr, "b") {
+				sc.Targets[j].Phases = []Phase{{Until: time.Duration(50+rng.Intn(300)) * time.Millisecond, Kind: "ok"}, {Kind: "status", Status: 503}}
+			}
+		}
+	}
 	if kind == "pause" || kind == "stop" {
 		if rng.Intn(2) == 0 {
 			op.Ops = append(op.Ops, Op{Kind: "resume", Service: "web", Delay: time.Duration(200+rng.Intn(1500)) * time.Millisecond})
